@@ -6,7 +6,7 @@
 //! `Vec<bool>` mirror of every register is maintained next to the real bitsets; `o=ok` at the end of the
 //! answer says that all observations equal the mirror's.
 //!
-//! Each case runs on a worker thread under a watchdog: an iterator that never returns makes the answer
+//! Each case runs on a worker thread under a watchdog (2 s of CPU time on one case): an iterator that never returns makes the answer
 //! `hang` instead of blocking the check (later cases of that process are answered `INVALID skipped-after-hang`
 //! and the process exits with code 3).
 #[path = "../../common/mod.rs"]
@@ -131,22 +131,146 @@ fn show_iter(it: &[usize], n: usize) -> String {
     }
 }
 
+/// One iterator probe: the iterator after `k` calls of `next`, used through the provided `Iterator` methods.
+#[derive(PartialEq)]
+struct Probe {
+    k: usize,
+    count: usize,                                  // adv(k).count()
+    last: Option<usize>,                           // adv(k).last()
+    rest: Vec<usize>,                              // adv(k).collect()
+    nths: Vec<(usize, Option<usize>, usize)>,      // j, adv(k).nth(j), then by_ref().count()
+    peek: Option<usize>,                           // adv(k).peekable().peek()
+    peek_count: usize,                             //   ... then .count()
+    skip_count: usize,                             // iter_bits().skip(k).count()
+    hint_ok: bool,                                 // size_hint brackets the number of remaining elements
+    hint: (usize, Option<usize>),
+}
+
+fn dedup_keep_order(v: Vec<usize>) -> Vec<usize> {
+    let mut out: Vec<usize> = Vec::new();
+    for x in v {
+        if !out.contains(&x) {
+            out.push(x);
+        }
+    }
+    out
+}
+
+/// prefix lengths probed for a set with `l` members: 0, 1, 2, l-1 (those <= l)
+fn probe_ks(l: usize) -> Vec<usize> {
+    dedup_keep_order(vec![0, 1, 2, l.saturating_sub(1)].into_iter().filter(|&k| k <= l).collect())
+}
+/// `nth` arguments probed with `rem` elements remaining
+fn probe_js(rem: usize) -> Vec<usize> {
+    dedup_keep_order(vec![0, 1, rem.saturating_sub(1), rem])
+}
+
+fn opt(x: Option<usize>) -> String {
+    match x {
+        Some(v) => v.to_string(),
+        None => "-".to_string(),
+    }
+}
+
+fn show_probe(p: &Probe, n: usize) -> String {
+    format!(
+        "k={}:c={}:l={}:r={}:n={}:p={}>{}:s={}:h={}",
+        p.k,
+        p.count,
+        opt(p.last),
+        show_iter(&p.rest, n),
+        p.nths.iter().map(|(j, x, a)| format!("{}>{}>{}", j, opt(*x), a)).collect::<Vec<_>>().join("/"),
+        opt(p.peek),
+        p.peek_count,
+        p.skip_count,
+        if p.hint_ok { "ok".to_string() } else { format!("bad({},{:?})", p.hint.0, p.hint.1) }
+    )
+}
+
+/// The probes on the real iterator.
+fn probes_impl<const N: usize>(b: &Bitset<N>, l: usize) -> Vec<Probe> {
+    let adv = |k: usize| {
+        let mut it = b.iter_bits();
+        for _ in 0..k {
+            it.next();
+        }
+        it
+    };
+    probe_ks(l)
+        .into_iter()
+        .map(|k| {
+            let rest: Vec<usize> = adv(k).collect();
+            let rem = rest.len();
+            let nths = probe_js(rem)
+                .into_iter()
+                .map(|j| {
+                    let mut it = adv(k);
+                    let x = it.nth(j);
+                    let after = it.by_ref().count();
+                    (j, x, after)
+                })
+                .collect();
+            let mut pk = adv(k).peekable();
+            let peek = pk.peek().copied();
+            let peek_count = pk.count();
+            let hint = adv(k).size_hint();
+            Probe {
+                k,
+                count: adv(k).count(),
+                last: adv(k).last(),
+                nths,
+                peek,
+                peek_count,
+                skip_count: b.iter_bits().skip(k).count(),
+                hint_ok: hint.0 <= rem && hint.1.map_or(true, |h| rem <= h),
+                hint,
+                rest,
+            }
+        })
+        .collect()
+}
+
+/// The same observables computed from the mirror's member list (independent oracle).
+fn probes_oracle(members: &[usize]) -> Vec<Probe> {
+    probe_ks(members.len())
+        .into_iter()
+        .map(|k| {
+            let rest: Vec<usize> = members[k..].to_vec();
+            let rem = rest.len();
+            Probe {
+                k,
+                count: rem,
+                last: rest.last().copied(),
+                nths: probe_js(rem).into_iter().map(|j| (j, rest.get(j).copied(), rem.saturating_sub(j + 1))).collect(),
+                peek: rest.first().copied(),
+                peek_count: rem,
+                skip_count: rem,
+                hint_ok: true,
+                hint: (0, None),
+                rest,
+            }
+        })
+        .collect()
+}
+
 struct RegObs {
     tests: Vec<bool>,
     count: usize,
     iter: Vec<usize>,
     disp: String,
     dbg: String,
+    probes: Vec<Probe>,
 }
 
 fn show_reg(o: &RegObs, n: usize) -> String {
     format!(
-        "t={},c={},i={},d={},g={}",
+        "t={},c={},i={},d={},g={},it={}",
         pack_hex(&o.tests),
         o.count,
         show_iter(&o.iter, n),
         o.disp,
-        if o.dbg == o.disp { "same".to_string() } else { o.dbg.clone() }
+        if o.dbg == o.disp { "same".to_string() } else { o.dbg.clone() },
+        o.probes.iter().map(|p| show_probe(p, n)).collect::<Vec<_>>().join("+")
     )
 }
 
@@ -244,22 +368,32 @@ fn run_history<const N: usize>(k: usize, ops: &[Op]) -> String {
     let mut oracle_ok = true;
     for r in 0..k {
         let b = &regs[r];
+        let iter: Vec<usize> = b.iter_bits().collect();
         let o = RegObs {
             tests: (0..bits).map(|i| b.test(i)).collect(),
             count: b.count(),
-            iter: b.iter_bits().collect(),
+            probes: probes_impl(b, iter.len()),
+            iter,
             disp: format!("{}", b),
             dbg: format!("{:?}", b),
         };
         let m = &mir[r];
+        let members: Vec<usize> = (0..bits).filter(|&i| m[i]).collect();
         let e = RegObs {
             tests: m.clone(),
             count: m.iter().filter(|&&x| x).count(),
-            iter: (0..bits).filter(|&i| m[i]).collect(),
+            probes: probes_oracle(&members),
+            iter: members,
             disp: bits01(m),
             dbg: bits01(m),
         };
-        if o.tests != e.tests || o.count != e.count || o.iter != e.iter || o.disp != e.disp || o.dbg != e.dbg {
+        // (the oracle's `hint` field is a placeholder: compare everything but it)
+        let probes_eq = o.probes.len() == e.probes.len()
+            && o.probes.iter().zip(e.probes.iter()).all(|(a, b)| {
+                a.k == b.k && a.count == b.count && a.last == b.last && a.rest == b.rest && a.nths == b.nths
+                    && a.peek == b.peek && a.peek_count == b.peek_count && a.skip_count == b.skip_count && a.hint_ok
+            });
+        if o.tests != e.tests || o.count != e.count || o.iter != e.iter || o.disp != e.disp || o.dbg != e.dbg || !probes_eq {
             oracle_ok = false;
         }
         out.push(show_reg(&o, bits));
@@ -652,8 +786,20 @@ fn gen(args: &Args, emit: &mut dyn FnMut(String), st: &mut Stats) {
 
 static HUNG: std::sync::atomic::AtomicBool = std::sync::atomic::AtomicBool::new(false);
 
+/// CPU seconds (user + system) this process has used so far; `None` if /proc is unavailable.
+fn process_cpu_seconds() -> Option<f64> {
+    let s = std::fs::read_to_string("/proc/self/stat").ok()?;
+    let after = &s[s.rfind(')')? + 1..];
+    let f: Vec<&str> = after.split_whitespace().collect();
+    // after the command name: state is field 3, utime field 14, stime field 15 (1-based in the whole line)
+    let utime: f64 = f.get(11)?.parse().ok()?;
+    let stime: f64 = f.get(12)?.parse().ok()?;
+    Some((utime + stime) / 100.0)
+}
+
 fn main() {
     use std::sync::atomic::Ordering;
+    use std::time::Instant;
     let mut worker: Option<Worker> = Some(spawn_worker());
     cli(gen, move |line| {
         if HUNG.load(Ordering::SeqCst) {
@@ -661,20 +807,32 @@ fn main() {
         }
         let w = worker.as_ref().unwrap();
         w.tx.send(line.to_string()).unwrap();
-        // a case takes well under 10 ms; 2 s without an answer means the real code does not return
-        match w.rx.recv_timeout(Duration::from_secs(2)) {
-            Ok(r) => r,
-            Err(_) => {
-                HUNG.store(true, Ordering::SeqCst);
-                // the stuck thread is abandoned; the process ends after the last line
-                std::mem::forget(worker.take());
-                "I hang".to_string()
+        // A case needs well under 10 ms of CPU.  It is declared hung when this process (the main thread only
+        // waits, so this is the worker) has burnt 2 s of CPU on it — being descheduled on a loaded machine does
+        // not count — or, as a backstop (and when /proc is unavailable), after 120 s of wall-clock time.
+        let cpu0 = process_cpu_seconds();
+        let t0 = Instant::now();
+        loop {
+            match w.rx.recv_timeout(Duration::from_millis(500)) {
+                Ok(r) => return r,
+                Err(_) => {
+                    let burnt = match (cpu0, process_cpu_seconds()) {
+                        (Some(a), Some(b)) => b - a,
+                        _ => 0.0,
+                    };
+                    if burnt >= 2.0 || t0.elapsed() >= Duration::from_secs(120) {
+                        HUNG.store(true, Ordering::SeqCst);
+                        // the stuck thread is abandoned; the process ends after the last line
+                        std::mem::forget(worker.take());
+                        return "I hang".to_string();
+                    }
+                }
             }
         }
     });
     if HUNG.load(Ordering::SeqCst) {
         // make the hang visible to `check` even if the line itself were overlooked
-        eprintln!("a case did not return within 2 s (answered `hang`); later cases of this process were skipped");
+        eprintln!("a case used 2 s of CPU without returning (answered `hang`); later cases of this process were skipped");
         std::process::exit(3);
     }
 }
